@@ -28,7 +28,7 @@ pub fn read_only_op(rng: &mut Rng, pool: usize) -> Op {
 // ---------------------------------------------------------------- C15
 
 /// close; snapshot bytes; reopen (possibly with other buffer parameters); read-only session; close; compare
-fn c15_cycle<K: Kt>(a: &Args, s: &mut Session<K>, h: &History, upto: usize, n_ro: usize, ctx: &mut Ctx, rng: &mut Rng) -> Option<Stop> {
+fn c15_cycle<K: Kt>(_a: &Args, s: &mut Session<K>, h: &History, upto: usize, n_ro: usize, ctx: &mut Ctx, rng: &mut Rng) -> Option<Stop> {
     let mon = Mon::default();
     s.close();
     let dir = s.dir.clone();
@@ -36,7 +36,13 @@ fn c15_cycle<K: Kt>(a: &Args, s: &mut Session<K>, h: &History, upto: usize, n_ro
         Ok(i) => i,
         Err(e) => return Some(Stop::Harness(e.to_string())),
     };
-    let cfg = if rng.chance(1, 2) { h.cfg } else { Cfg { buckets: h.cfg.buckets, key: Cfg::random_buf(rng), val: Cfg::random_buf(rng), htx: Cfg::random_buf(rng) } };
+    // the read-only session may open the map with any other parameters (table size parameters are ignored for an
+    // existing map, buffer sizes are free): none of that may change the files either
+    let cfg = match rng.below(3) {
+        0 => h.cfg,
+        1 => Cfg { buckets: h.cfg.buckets, key: Cfg::random_buf(rng), val: Cfg::random_buf(rng), htx: Cfg::random_buf(rng) },
+        _ => Cfg::random(rng, false),
+    };
     if let Err(e) = s.open(&cfg) {
         return Some(ctx.classify(finding(&["C02"], "reopen", upto, e)));
     }
